@@ -35,6 +35,13 @@ CHECKS = {
         design_ref="DESIGN.md section 3, C03",
         note="Trusted: the harness's reference evaluator (written from the arithmetic definitions) and its integer classification. Only nowrap=true. Chain states are arbitrary, not only reachable ones. Cost limit ample; signatures not validated.",
     ),
+    "C10": dict(
+        engine="histsim",
+        technique="deterministic simulation, reduced sequential form: seeded add/finalize histories with injected failing attempts (rejected by the pre-check, rejected after serialisation with declared costs landing on / around the remaining budget, failing mid-batch on truncated or bit-flipped bytes), two builder replicas (full history vs accepted-only) compared byte for byte, generator decoded and validated by the real run_block_generator2",
+        text="Seeded search over attempt histories x failure kinds x cost landing points for both builders under small per-run block limits. After finalize: replicas identical, generator = exactly the accepted spends, signature = aggregate of the accepted signatures, cost <= limit, cost = consensus cost and validates with max_cost = cost when declared costs were truthful, cost() reads after the last accepted attempt >= final cost, no panic. Exploration level (150 k histories quick, 8 M thorough). Reduced form: no scheduler and no clock, the fault is 'this attempt fails in this way'.",
+        design_ref="DESIGN.md section 3, C10",
+        note="Trusted: run_block_generator2 and run_spendbundle as validator / cost oracle, clvmr decoding, the harness's accepted-attempt model. Equality with the consensus cost only when every accepted declared cost was truthful. Two known findings on the unchanged tree (known_findings.txt): compressed builder cost() with zero accepted attempts; back-reference bytes after a rejected attempt.",
+    ),
     "C15": dict(
         engine="schedsim",
         technique="deterministic simulation: real threads parked and released one at a time at every acquisition of BlsCache's (hooked) mutex by a seeded uniform / PCT scheduler; capacity pressure, evictions, snapshots and invalid signatures injected; ground truth by construction; capacity invariant at every scheduling step; deadlock and bounded-liveness detection; recorded schedules replayed and minimised",
@@ -90,7 +97,6 @@ def main():
         })
     pending = {
         "C05": "claimed in DESIGN.md (schedsim); check not built yet in this commit",
-        "C10": "claimed in DESIGN.md (histsim); check not built yet in this commit",
     }
     for pid in sorted(set(NOT_APPLICABLE) | set(pending)):
         if pid in CHECKS:
